@@ -1,3 +1,4 @@
+import ChythonModel.Gen.C09Cache
 import ChythonModel.Proofs.C09Api
 import ChythonModel.Proofs.C09Closure
 import ChythonModel.Proofs.C09SearchP
@@ -95,6 +96,15 @@ theorem anyMetal_mask_table : ∀ z ∈ List.range' 1 118, elemAcc (qMetalV1, qM
 /-- the element flags behind C08's `notMetal` (Gen/QueryTables.lean) are the flags this property's translator re-extracts from the
     `Element` subclasses on every run -/
 theorem anyMetal_flags_agree : ∀ z ∈ List.range' 1 118, notMetalFlags.lookup z = some (notMetal z) := by
+  decide +kernel
+
+/-- **the packed buffers are never handed over**: no key selection of `copy` / `flush_cache` (hoisted constant tuples resolved) and
+    no constant-key store into a `__dict__` anywhere in the package names `_cython_compiled_structure` or `_cython_compiled_query`,
+    and no string literal spells them — so a copy or an edited object recomputes its buffers from its own state (regenerated AST
+    table `Gen/C09Cache.lean`) -/
+theorem compiled_buffers_never_kept :
+    (∀ s ∈ ChythonModel.Gen.C09Cache.keepSites, ∀ k ∈ ChythonModel.Gen.C09Cache.bufferKeys, k ∉ s.2) ∧
+    ChythonModel.Gen.C09Cache.literalSites = [] := by
   decide +kernel
 
 /-! ## encoders are total and fit 64 bits on the documented domain -/
